@@ -21,6 +21,7 @@ type vReqInfo struct {
 }
 
 type vMonitor struct {
+	cur         vOp // the operation being executed
 	out         *vOut
 	x           *vRun
 	line        string
@@ -58,6 +59,7 @@ func (m *vMonitor) flush() {
 }
 
 func (m *vMonitor) before(x *vRun, o vOp) {
+	m.cur = o
 	if o.kind == 'L' || o.kind == 'U' {
 		m.reqs[o.req] = &vReqInfo{op: o, t0: x.v.db.currentTime}
 	}
@@ -148,6 +150,29 @@ func (m *vMonitor) onReply(r vReply) {
 		}
 		if oldest.req != r.req && pre > oldest.count {
 			m.report("C01:exceeds-oldest-count", fmt.Sprintf("request %d was granted as a new holder of key %d with %d holds outstanding, oldest holder's Count is %d", r.req, r.key, pre, oldest.count))
+		}
+	}
+	// ---- C04: a grant from the queue goes to the request that a stable priority queue would serve first
+	if r.result == 0 && ri.op.kind == 'L' && !((m.cur.kind == 'L' || m.cur.kind == 'U') && m.cur.req == r.req) {
+		prio := 0
+		if ri.op.tflag&0x10 != 0 {
+			prio = ri.op.rcount
+		}
+		for _, w := range ks.waits {
+			var id, rq int
+			var tt int64
+			fmt.Sscanf(strings.ReplaceAll(w, ".", " "), "%d %d %d", &id, &rq, &tt)
+			wi := m.reqs[rq]
+			if wi == nil {
+				continue
+			}
+			wp := 0
+			if wi.op.tflag&0x10 != 0 {
+				wp = wi.op.rcount
+			}
+			if wp > prio || (wp == prio && rq < r.req) {
+				m.report("C04:order", fmt.Sprintf("queued request %d (priority %d) was granted while request %d (priority %d, queued earlier or higher) is still queued on key %d", r.req, prio, rq, wp, r.key))
+			}
 		}
 	}
 	// ---- bookkeeping for C05/C06
@@ -248,6 +273,32 @@ func (m *vMonitor) after(x *vRun, o vOp, ob string) {
 				// released exactly a hold of that LockId (or the oldest with unlock-first)
 				if !strings.Contains(m.before_, fmt.Sprintf("{%d ", ri.terminal[0].lockId)) {
 					m.report("C02:released-foreign", fmt.Sprintf("unlock %d succeeded for LockId %d although no such hold was outstanding: %s", o.req, ri.terminal[0].lockId, m.before_))
+				}
+			}
+		}
+	}
+	// ---- C05 / C06: a request just queued / a hold whose terms were just set must not be scheduled to end before T / E
+	if o.kind == 'L' {
+		ri := m.reqs[o.req]
+		ks := x.v.keySnap(o.key)
+		if len(ri.terminal) == 0 && o.tflag&0x400 == 0 {
+			unit := int64(1)
+			if o.tflag&0x40 != 0 {
+				unit = 60
+			}
+			for _, w := range ks.waits {
+				var id, rq int
+				var tt int64
+				fmt.Sscanf(strings.ReplaceAll(w, ".", " "), "%d %d %d", &id, &rq, &tt)
+				if rq == o.req && tt < ri.t0+int64(o.timeout)*unit {
+					m.report("C05:deadline-before-T", fmt.Sprintf("request %d queued at %d with timeout %d×%d s has the deadline %d: it will be answered TIMEOUT %d s after queuing", o.req, ri.t0, o.timeout, unit, tt, tt-ri.t0))
+				}
+			}
+		}
+		if ri.setsTerms && ri.grantT == now && !ri.effUnlim && o.eflag&0x400 == 0 && !(o.eflag&0x4000 != 0 && o.expried == 0xffff) {
+			for _, h := range ks.holds {
+				if h.req == o.req && h.expT < now+ri.effE {
+					m.report("C06:deadline-before-E", fmt.Sprintf("hold whose terms were set by request %d at %d (expiry %d s) has the deadline %d: it will be ended after %d s", o.req, now, ri.effE, h.expT, h.expT-now))
 				}
 			}
 		}
